@@ -13,6 +13,7 @@ WITNESSES = [
     ("inverted-class-nested-empty-handlers", 'parser { loop { try { /[^ab]/; } catch { try { "a"; } catch { } } } }', ["-O1"], [98]),
     ("overflow-into-empty-handler", 'out str[3] s; parser { loop { try { s += /\\w/; } catch (outofspace) { } } }', ["-O1"], [48, 48, 48, 48]),
     ("break-as-first-statement", 'parser { loop { loop { break; "a"; } } }', ["-O1"], [0]),
+    ("end-call-inverted-classes-in-empty-handlers", 'out int t = 0; parser { try { loop { try { /a[^;]/; } catch (nomatch) { } try { /[^aa]/; } catch (nomatch) { } if t == 3 { break; } try { /[^;;]/; } catch (nomatch) { } } } catch { } "end"; }', ["-O0", "-feof-support"], [97]),
     ("yield-on-immediate-done-transition", 'yieldcode LP, RP; parser { optional { loop { case { "(" -> { yield LP; } ")" -> { yield RP; } } } } }', ["-O3", "-fyield-support"], [40]),
 ]
 
@@ -50,19 +51,26 @@ def run(ctx):
     feats = collections.Counter()
     for name, src, flags in progs:
         for lvl in levels:
-            fl = [lvl] + [f for f in flags if not f.startswith("-O")]
-            r = nm.compile_source(src, fl)
-            verdicts[r["verdict"]] += 1
-            if r["verdict"] == "ok":
-                machines.append((name, lvl, src, fl, r["machines"]["post_optimize"]))
+            base = [lvl] + [f for f in flags if not f.startswith("-O")]
+            # spin candidates are also compiled with end(): only there is a cycle on the end-of-input symbol a call that never returns
+            variants = [base] + ([base + ["-feof-support"]] if name.startswith("spin") and "-feof-support" not in base else [])
+            for fl in variants:
+                r = nm.compile_source(src, fl)
+                verdicts[r["verdict"]] += 1
+                if r["verdict"] == "ok":
+                    machines.append((name, lvl, src, fl, r["machines"]["post_optimize"]))
     tasks = [mach.task_nospin(m) for _, _, _, _, m in machines]
     results = mach.run_machk(tasks)
     nviol = 0
+    end_only_without_end_call = 0
     for (name, lvl, src, fl, m), res in zip(machines, results):
         if res == "ok":
             continue
-        nviol += 1
         parts = res.split()
+        if parts[0] == "spin" and parts[2:3] == ["256"] and "-feof-support" not in fl:
+            end_only_without_end_call += 1      # no end() is generated: the cycle is not a call (the variant with end() is checked too)
+            continue
+        nviol += 1
         if parts[0] == "spin" and parts[1].isdigit():
             q, s = int(parts[1]), int(parts[2])
             path = mach.reach_path(m, q)
@@ -89,7 +97,7 @@ def run(ctx):
         try:
             Pw = cdrv.prepare(wsrc, wfl, wd)
             if Pw["ok"]:
-                rc_, lines_, err_ = cdrv.run_c(Pw["wd"], Pw["cp"].init_vals() + "\nrun 1 %d %s 0\n" % (len(winp), " ".join(map(str, winp))), timeout=5)
+                rc_, lines_, err_ = cdrv.run_c(Pw["wd"], Pw["cp"].init_vals() + "\nrun 1 %d %s %d\n" % (len(winp), " ".join(map(str, winp)), 1 if "-feof-support" in wfl else 0), timeout=5)
                 obs = {"exit": rc_, "note": "124 = feed did not return within 5 s", "calls": lines_[:4]}
         except Exception as e:
             obs = {"error": repr(e)[:200]}
@@ -111,7 +119,7 @@ def run(ctx):
         if ok is False:
             ctx.violation("coq-cert:%s" % name, "in-Coq no-spin certificate rejected", {"broken": "Cert nospin_cert", "output": tail}, found_input=False)
     ctx.coverage.update({
-        "programs": len(machines), "disagreements_checked": nviol,
+        "programs": len(machines), "disagreements_checked": nviol, "cycles_on_end_symbol_in_parsers_without_end": end_only_without_end_call,
         "programs_certified_in_coq": coq_ok, "programs_certified_extracted": len(machines),
         "compiler_verdicts": dict(verdicts), "levels": levels,
         "states_distribution": sorted(len(m["states"]) for _, _, _, _, m in machines)[::max(1, len(machines) // 12)],
